@@ -1,6 +1,7 @@
 package json
 
 import (
+	"errors"
 	"strconv"
 
 	"go.pennock.tech/tabular/properties"
@@ -290,6 +291,11 @@ type vfStringer struct{ s string }
 
 func (x vfStringer) String() string { return x.s }
 
+// a text-like item reached through a pointer (the method is on the pointer type)
+type vfPtrStringer struct{ s string }
+
+func (x *vfPtrStringer) String() string { return x.s }
+
 func vfItoa(i int) string {
 	if i == 0 {
 		return "0"
@@ -322,7 +328,7 @@ func vfItem(name string, mode int, symbolic bool, L int) (interface{}, vfWant) {
 		}
 		return "v"
 	}
-	nk := 7
+	nk := 9
 	if mode == 2 {
 		nk = 2 // sequences: a string or nil
 	}
@@ -355,10 +361,17 @@ func vfItem(name string, mode int, symbolic bool, L int) (interface{}, vfWant) {
 		return "", vfWant{vfVal{0, ""}, true}
 	}
 	s := str()
-	if len(s) == 0 {
-		return vfStringer{s}, vfWant{vfVal{5, ""}, true}
+	var item interface{} = vfStringer{s}
+	switch kind {
+	case 7: // pointer to a struct without exported fields, text method on the pointer
+		item = &vfPtrStringer{s}
+	case 8: // an error value (a pointer to a struct without exported fields)
+		item = errors.New(s)
 	}
-	return vfStringer{s}, vfWant{vfVal{0, s}, false}
+	if len(s) == 0 {
+		return item, vfWant{vfVal{5, ""}, true}
+	}
+	return item, vfWant{vfVal{0, s}, false}
 }
 
 // mode 0 (content): header and cell texts arbitrary ASCII, skipable unset
